@@ -140,7 +140,7 @@ func c11Compile(src string) rel.Expr {
 
 type c11Bind struct {
 	name string
-	src  string                                   // compiled once per process, evaluated per build (closures)
+	src  string                                    // compiled once per process, evaluated per build (closures)
 	mk   func(prev map[string]rel.Value) rel.Value // built through the Go API: a fresh object graph per build
 }
 
@@ -685,9 +685,11 @@ func c11B(name string, mk func() rel.Value) c11Bind {
 	return c11Bind{name: name, mk: func(c11Prev) rel.Value { return mk() }}
 }
 
-func c11P(label, src string) c11Prog        { return c11Prog{label: label, src: src} }
-func c11PE(label, src string) c11Prog       { return c11Prog{label: label, src: src, errText: true} }
-func c11PP(label, src, kind string) c11Prog { return c11Prog{label: label, src: src, probe: kind, errText: true} }
+func c11P(label, src string) c11Prog  { return c11Prog{label: label, src: src} }
+func c11PE(label, src string) c11Prog { return c11Prog{label: label, src: src, errText: true} }
+func c11PP(label, src, kind string) c11Prog {
+	return c11Prog{label: label, src: src, probe: kind, errText: true}
+}
 
 func c11Size(r *core.Rng, canon bool, c, lo, hi int) int {
 	if canon {
@@ -1046,8 +1048,12 @@ func c11ScopeNames(sc rel.Scope) string {
 }
 
 var c11FirstUses = []c11FU{
-	{"StdScope", func(ctx, mem context.Context) string { return c11Safe(func() string { return c11ScopeNames(syntax.StdScope()) }) }},
-	{"SafeStdScope", func(ctx, mem context.Context) string { return c11Safe(func() string { return c11ScopeNames(syntax.SafeStdScope()) }) }},
+	{"StdScope", func(ctx, mem context.Context) string {
+		return c11Safe(func() string { return c11ScopeNames(syntax.StdScope()) })
+	}},
+	{"SafeStdScope", func(ctx, mem context.Context) string {
+		return c11Safe(func() string { return c11ScopeNames(syntax.SafeStdScope()) })
+	}},
 	{"FixFuncs", func(ctx, mem context.Context) string {
 		return c11Safe(func() string { f, ft := syntax.FixFuncs(); return f.String() + "|" + ft.String() })
 	}},
